@@ -196,6 +196,11 @@ impl Property for C19 {
                         sc.outcomes = vec![Outcome::SpawnErr(libc::EACCES)];
                     }
                 }
+                if rng.chance(1, 3) {
+                    // the arguments come from -a FILE: the children keep xargs' standard input,
+                    // and a command that cannot be started is still 127 / 126
+                    sc.opts.push(Opt::ArgFile);
+                }
                 return sc;
             }
             _ => {
